@@ -465,6 +465,8 @@ class C02(TrainCase):
             'sim': {
                 'policy': rng.choice(sched.POLICIES),
                 'poison': rng.random() < 0.6,
+                'late_read': rng.random() < 0.25,
+                'unordered': rng.random() < 0.25,
                 'latency': rng.choice([0.0, 1e-4, 1e-2]),
                 'bandwidth': 1e9,
                 'sched_seed': rng.randrange(1 << 30),
